@@ -10,16 +10,18 @@
    NLS.set_refpoint + the properties A, C return at the reference point) is the record [system].
    The time argument t is not modelled (time-invariant systems).
 
-   What the code does and the textbook does not (kept on purpose, see Props/C13.v):
-     * EKF.forward takes the innovation  y - h(x, u)  at the PRE-transition state x (the
-       documentation says h(x^-, u));  [ekf_forward_gen true] is the documented recursion.
-     * UKF.sigma_weight_points adds the ROWS of the factor returned by msqrt to the mean
-       ([xe + xr] broadcasts row-wise); with the default lower Cholesky factor L (L L^T = M) the
-       sigma points then have covariance L^T L / (n+k), not M / (n+k).
-     * UKF.forward pairs the state deviations [ex] of the FIRST sigma set (propagated through f)
-       with the observation deviations [ey] of the SECOND sigma set in Pxy.
-     * PF.forward calls self.model(xp, u), i.e. System.forward, which evaluates the observation at
-       the particles BEFORE the transition. *)
+   History.  Up to /repo commits 8375f2f (EKF), 7981b02 (UKF), b057b94 (PF) the code deviated from the
+   textbook; the old behaviour is kept as the [_old] definitions (flags of the [_gen] functions) for the
+   refutation theorems of Props/C13.v:
+     * EKF.forward took the innovation  y - h(x, u)  at the PRE-transition state x   (at_pred = false);
+     * UKF.sigma_weight_points added the ROWS of the lower Cholesky factor             (by_cols = false);
+     * UKF.forward paired the state deviations of the FIRST sigma set with the observation
+       deviations of the SECOND one in Pxy                                             (same_set = false);
+     * PF.forward called self.model(xp, u) (System.forward): observation of the particles BEFORE the
+       transition                                                                      (at_prop = false).
+   Now: innovation at the predicted state, [msqrt(..).mT] (columns), [ex = xe - xs] recomputed from the
+   second sigma set, [xs = state_transition(xp, u, t); ye = observation(xs, u, t)] (PF.forward no longer
+   calls model.forward, so the system clock is not advanced -- time is not modelled here anyway). *)
 From Coq Require Import ZArith QArith List Bool Arith.
 Import ListNotations.
 From PV Require Import Base.Num Base.Mat.
@@ -56,8 +58,8 @@ Definition kf_step A B C D c1 c2 Q R (x y u : list F) (P : @mat F) : list F * @m
   let '(xm, Pm) := kf_predict A B c1 Q x u P in kf_update C D c2 R xm Pm u y.
 
 (* ------------------------------------------------------------------ EKF.forward *)
-(* at_pred = false : as coded (innovation at the pre-transition state x)
-   at_pred = true  : as documented (innovation at the predicted state x^-) *)
+(* at_pred = true  : as coded and documented (innovation at the predicted state x^-)
+   at_pred = false : the code before 8375f2f (innovation at the pre-transition state x) *)
 Definition ekf_forward_gen (at_pred : bool) (s : system) (Q R : @mat F) (x y u : list F) (P : @mat F)
   : list F * @mat F :=
   let I := mid (mcols P) in                                  (* torch.eye(P.shape[-1]) *)
@@ -70,7 +72,8 @@ Definition ekf_forward_gen (at_pred : bool) (s : system) (Q R : @mat F) (x y u :
   let xp := vplus xm (mapply K e) in                         (* 4. *)
   let P' := mmul (msub I (mmul K C)) Pm in                   (* 5. (I - K C) P *)
   (xp, P').
-Definition ekf_forward := ekf_forward_gen false.
+Definition ekf_forward := ekf_forward_gen true.
+Definition ekf_forward_old := ekf_forward_gen false.      (* before 8375f2f *)
 
 Definition ekf_run (s : system) (Q R : @mat F) (st : list F * @mat F) (steps : list (list F * list F))
   : list F * @mat F :=
@@ -79,8 +82,8 @@ Definition ekf_run (s : system) (Q R : @mat F) (st : list F * @mat F) (steps : l
 (* ------------------------------------------------------------------ UKF *)
 Definition ofnat (n : nat) : F := ofZ (Z.of_nat n).
 
-(* sigma_weight_points(x, P, k).  by_cols = false : as coded (rows of msqrt(...) are added);
-   by_cols = true : the columns are added.  None = the assert on the shapes fails. *)
+(* sigma_weight_points(x, P, k).  by_cols = true : as coded (xr = msqrt(...).mT: the columns of the factor are
+   added); by_cols = false : the code before 7981b02 (rows).  None = the assert on the shapes fails. *)
 Definition sigma_points_gen (by_cols : bool) (x : list F) (P : @mat F) (k : F)
   : option (@mat F * list F) :=
   if negb (Nat.eqb (length x) (mcols P) && Nat.eqb (mcols P) (mrows P)) then None else
@@ -102,7 +105,8 @@ Definition wcov (a b : @mat F) (w : list F) (Q : option (@mat F)) : @mat F :=
 (* xe - xs : the mean minus every row *)
 Definition dev_rows (xe : list F) (xs : @mat F) : @mat F := map (fun p => vminus xe p) xs.
 
-(* by_cols / same_set = false, false : UKF.forward as coded *)
+(* by_cols / same_set = true, true : UKF.forward as coded (ex = xe - xs recomputed after the second
+   sigma_weight_points); false, false : the code before 7981b02 *)
 Definition ukf_forward_gen (by_cols same_set : bool) (s : system) (Q R : @mat F)
   (x y u : list F) (P : @mat F) (k : F) : option (list F * @mat F) :=
   match sigma_points_gen by_cols x P k with
@@ -127,7 +131,8 @@ Definition ukf_forward_gen (by_cols same_set : bool) (s : system) (Q R : @mat F)
       Some (x', P')
     end
   end.
-Definition ukf_forward := ukf_forward_gen false false.
+Definition ukf_forward := ukf_forward_gen true true.
+Definition ukf_forward_old := ukf_forward_gen false false.      (* before 7981b02 *)
 (* the predicted mean / covariance only (first half of forward) *)
 Definition ukf_predict_gen (by_cols : bool) (s : system) (Q : @mat F) (x u : list F) (P : @mat F) (k : F)
   : option (list F * @mat F) :=
@@ -139,7 +144,8 @@ Definition ukf_predict_gen (by_cols : bool) (s : system) (Q : @mat F) (x u : lis
     let ex := dev_rows xe xs in
     Some (xe, wcov ex ex w (Some Q))
   end.
-Definition ukf_predict := ukf_predict_gen false.
+Definition ukf_predict := ukf_predict_gen true.
+Definition ukf_predict_old := ukf_predict_gen false.
 
 Definition ukf_run (s : system) (Q R : @mat F) (k : F) (st : option (list F * @mat F))
   (steps : list (list F * list F)) : option (list F * @mat F) :=
@@ -186,14 +192,18 @@ Definition softmax (l : list F) : list F :=
   let e := map texp l in
   let s := fold_left add e zero in
   map (fun a => a / s) e.
-(* forward(x, y, u, P, Q, R) with the normal draws eps and the uniform draws r replayed *)
-Definition pf_forward (s : system) (Q R : @mat F) (x y u : list F) (P : @mat F)
+(* forward(x, y, u, P, Q, R) with the normal draws eps and the uniform draws r replayed.
+   at_prop = true : as coded  (xs = state_transition(xp, u, t); ye = observation(xs, u, t));
+   at_prop = false: the code before b057b94 (xs, ye = self.model(xp, u): observation of xp) *)
+Definition pf_forward_gen (at_prop : bool) (s : system) (Q R : @mat F) (x y u : list F) (P : @mat F)
   (eps : @mat F) (r : list F) : option (list F * @mat F) :=
   let xp := pf_particles x P eps in
   let xs := map (fun p => sf s p u) xp in
-  let ye := map (fun p => sh s p u) xp in                 (* System.forward: observation(self.state) *)
+  let ye := map (fun p => sh s p u) (if at_prop then xs else xp) in
   let q := softmax (pf_loglik R y ye) in
   pf_estimate q xs r Q.
+Definition pf_forward := pf_forward_gen true.
+Definition pf_forward_old := pf_forward_gen false.      (* before b057b94 *)
 End PFTrans.
 
 End Filter.
@@ -279,11 +289,11 @@ Definition ukf_case_gen (by_cols same_set : bool) (c : fcase) : bool :=
     match ukf_forward_gen pinvE msqrtE by_cols same_set (qsystem s) Qm Rm x y u P k with
     | Some (mx, mP) => vclose tx mx ox && mclose tP mP oP
     | None => false end end.
-Definition ekf_bad (cs : list fcase) : list nat := map case_idx (filter (fun c => negb (ekf_case_gen false c)) cs).
-Definition ukf_bad (cs : list fcase) : list nat := map case_idx (filter (fun c => negb (ukf_case_gen false false c)) cs).
-(* the documented / repaired variants (compared with the harness's mpmath oracle, never with the implementation) *)
-Definition ekf_documented_bad (cs : list fcase) : list nat := map case_idx (filter (fun c => negb (ekf_case_gen true c)) cs).
-Definition ukf_repaired_bad (cs : list fcase) : list nat := map case_idx (filter (fun c => negb (ukf_case_gen true true c)) cs).
+Definition ekf_bad (cs : list fcase) : list nat := map case_idx (filter (fun c => negb (ekf_case_gen true c)) cs).
+Definition ukf_bad (cs : list fcase) : list nat := map case_idx (filter (fun c => negb (ukf_case_gen true true c)) cs).
+(* the old variants (debugging / classification of a regression only) *)
+Definition ekf_old_bad (cs : list fcase) : list nat := map case_idx (filter (fun c => negb (ekf_case_gen false c)) cs).
+Definition ukf_old_bad (cs : list fcase) : list nat := map case_idx (filter (fun c => negb (ukf_case_gen false false c)) cs).
 (* the model's output itself (debugging) *)
 Definition to_Qv (v : list F) : list Q := map fix_to_Q v.
 
@@ -293,8 +303,8 @@ Definition rstep := (nat * list F * list F * list F * fmat * list F * fmat * F *
 Definition run_bad (ukf : bool) (s : qsys) (Qm Rm : fmat) (k : F) (steps : list rstep) : list nat :=
   map (fun st : rstep => match st with (i, _, _, _, _, _, _, _, _) => i end)
       (filter (fun st : rstep => match st with (i, x, y, u, P, ox, oP, tx, tP) =>
-         negb (if ukf then ukf_case_gen false false (i, s, Qm, Rm, x, y, u, P, k, ox, oP, tx, tP)
-               else ekf_case_gen false (i, s, Qm, Rm, x, y, u, P, k, ox, oP, tx, tP)) end) steps).
+         negb (if ukf then ukf_case_gen true true (i, s, Qm, Rm, x, y, u, P, k, ox, oP, tx, tP)
+               else ekf_case_gen true (i, s, Qm, Rm, x, y, u, P, k, ox, oP, tx, tP)) end) steps).
 
 (* ---- PF *)
 (* particles: (index, x, P, eps, implementation's particles, tol) *)
@@ -309,7 +319,7 @@ Definition diffs (l : list F) : list F := match l with [] => [] | a :: _ => map 
 Definition pf_lik_case := (nat * qsys * fmat * list F * list F * fmat * list F * F)%type.
 Definition pf_lik_ok (c : pf_lik_case) : bool :=
   match c with (_, s, Rm, y, u, xp, out, tol) =>
-    let ye := map (fun p => sh (qsystem s) p u) xp in
+    let ye := map (fun p => sh (qsystem s) (sf (qsystem s) p u) u) xp in       (* observation(state_transition(xp)) *)
     vclose tol (diffs (pf_loglik pinvE (fun _ => zero) Rm y ye)) (diffs out) end.
 Definition pf_lik_bad (cs : list pf_lik_case) : list nat :=
   map (fun c : pf_lik_case => match c with (i, _, _, _, _, _, _, _) => i end) (filter (fun c => negb (pf_lik_ok c)) cs).
